@@ -55,6 +55,34 @@ Proof.
   unfold f32_is_nan in Hn. destruct (f32_of_bits b); cbn [B2FF ff_class is_nan] in Hc, Hn; try discriminate Hn; lia.
 Qed.
 
+(** the same for patterns of any size: only the low 64 / 32 bits are decoded and tested *)
+Lemma number_canon64_any b : f64_is_nan (f64_of_bits b) = false -> canon64 b = b.
+Proof.
+  intros Hn. apply canon64_small.
+  assert (Hb : b mod 2 ^ 64 < 2 ^ 64) by (apply N.mod_lt; discriminate).
+  assert (E : f64_of_bits (b mod 2 ^ 64) = f64_of_bits b) by (unfold f64_of_bits; rewrite N.mod_mod by discriminate; reflexivity).
+  pose proof (f64_of_bits_class _ Hb) as Hc. rewrite E in Hc.
+  assert (Hm : (Z.of_N ((b mod 2 ^ 64) mod 2 ^ 63) <= 9218868437227405312)%Z).
+  { unfold f64_is_nan in Hn. destruct (f64_of_bits b); cbn [B2FF ff_class is_nan] in Hc, Hn; try discriminate Hn; lia. }
+  assert (Em : (b mod 2 ^ 64) mod 2 ^ 63 = b mod 2 ^ 63).
+  { change (2 ^ 64) with (2 ^ 63 * 2). rewrite N.mod_mul_r by discriminate.
+    rewrite N.mul_comm, N.mod_add by discriminate. apply N.mod_mod. discriminate. }
+  rewrite Em in Hm. lia.
+Qed.
+Lemma number_canon32_any b : f32_is_nan (f32_of_bits b) = false -> canon32 b = b.
+Proof.
+  intros Hn. apply canon32_small.
+  assert (Hb : b mod 2 ^ 32 < 2 ^ 32) by (apply N.mod_lt; discriminate).
+  assert (E : f32_of_bits (b mod 2 ^ 32) = f32_of_bits b) by (unfold f32_of_bits; rewrite N.mod_mod by discriminate; reflexivity).
+  pose proof (f32_of_bits_class _ Hb) as Hc. rewrite E in Hc.
+  assert (Hm : (Z.of_N ((b mod 2 ^ 32) mod 2 ^ 31) <= 2139095040)%Z).
+  { unfold f32_is_nan in Hn. destruct (f32_of_bits b); cbn [B2FF ff_class is_nan] in Hc, Hn; try discriminate Hn; lia. }
+  assert (Em : (b mod 2 ^ 32) mod 2 ^ 31 = b mod 2 ^ 31).
+  { change (2 ^ 32) with (2 ^ 31 * 2). rewrite N.mod_mul_r by discriminate.
+    rewrite N.mul_comm, N.mod_add by discriminate. apply N.mod_mod. discriminate. }
+  rewrite Em in Hm. lia.
+Qed.
+
 (** * f32 -> f64 keeps NaN and order *)
 Lemma conv_nan (x : binary32) : f64_is_nan (f64_of_f32 x) = false -> f32_is_nan x = false.
 Proof. destruct x; cbn; intros H; try reflexivity. discriminate H. Qed.
